@@ -40,9 +40,9 @@ class Solid:
 
 
 class Grad:
-    __slots__ = ("kind", "geom", "stops", "extend", "M", "domain", "_inv")
+    __slots__ = ("kind", "geom", "stops", "extend", "M", "domain", "_inv", "gt")
 
-    def __init__(self, kind, geom, stops, extend, M=I, domain="svg"):
+    def __init__(self, kind, geom, stops, extend, M=I, domain="svg", gt=None):
         self.kind = kind  # "L": geom=(p0,p1,p2)   "R": geom=(c0,r0,c1,r1)
         self.geom = geom
         self.stops = list(stops)  # [(offset, rgb, alpha)]
@@ -50,9 +50,10 @@ class Grad:
         self.M = M  # gradient space -> tree space
         self.domain = domain
         self._inv = None
+        self.gt = gt  # the gradientTransform as written in SVG text (its entries are rounded decimals), or None
 
     def with_M(self, M):
-        return Grad(self.kind, self.geom, self.stops, self.extend, M, self.domain)
+        return Grad(self.kind, self.geom, self.stops, self.extend, M, self.domain, self.gt)
 
     def __repr__(self):
         return "Grad(%s,%s,%s,%s,M=%s,%s)" % (self.kind, self.geom, self.stops, self.extend, tuple(round(v, 4) for v in self.M), self.domain)
@@ -108,28 +109,29 @@ class Grad:
             return self.stops[0][0], self.stops[-1][0]
         return 0.0, 1.0
 
+    def _wrap(self, u):
+        if self.extend == "pad":
+            return max(0.0, min(1.0, u))
+        if self.extend == "repeat":
+            return u - math.floor(u)
+        m = u % 2.0
+        return m if m <= 1 else 2 - m
+
     def color_at_t(self, t):
-        return self.color_range_t(t, t, point=True)
+        d0, d1 = self._dom()
+        if d1 <= d0:
+            s = self.stops[-1]
+            return s[1] + (s[2],)
+        x = d0 + self._wrap((t - d0) / (d1 - d0)) * (d1 - d0)
+        return self._ramp(x)[0]
 
     def _ramp(self, x):
-        """Colour at ramp position x (in stop-offset units), flat outside the stops. Returns list of candidate
-        colours (two at a hard stop)."""
+        """Colour(s) at ramp position x (stop-offset units), flat outside the stops; several at a hard stop."""
         st = self.stops
-        if x <= st[0][0]:
-            out = [st[0][1] + (st[0][2],)]
-            # hard stops stacked at the first offset
-            i = 1
-            while x == st[0][0] and i < len(st) and st[i][0] == st[0][0]:
-                out.append(st[i][1] + (st[i][2],))
-                i += 1
-            return out
-        if x >= st[-1][0]:
-            out = [st[-1][1] + (st[-1][2],)]
-            i = len(st) - 2
-            while x == st[-1][0] and i >= 0 and st[i][0] == st[-1][0]:
-                out.append(st[i][1] + (st[i][2],))
-                i -= 1
-            return out
+        if x < st[0][0]:
+            return [st[0][1] + (st[0][2],)]
+        if x > st[-1][0]:
+            return [st[-1][1] + (st[-1][2],)]
         out = []
         for (o0, c0, a0), (o1, c1, a1) in zip(st, st[1:]):
             if o0 <= x <= o1:
@@ -139,68 +141,55 @@ class Grad:
                 else:
                     k = (x - o0) / (o1 - o0)
                     out.append(tuple(c0[i] + (c1[i] - c0[i]) * k for i in range(3)) + (a0 + (a1 - a0) * k,))
-        return out
+        return out or [st[-1][1] + (st[-1][2],)]
 
-    def color_range_t(self, lo, hi, point=False):
-        """Exact per-channel range [(min,max)]*4 of the colour line over t in [lo, hi]."""
+    def color_range_t(self, lo, hi):
+        """Exact per-channel range [(min,max)]*4 of the colour line over t in [lo, hi]: the line is piecewise linear,
+        so its extremes are at the interval ends, at stops inside the interval (placed exactly, no float wrapping)
+        and at the tiling seams."""
         d0, d1 = self._dom()
-        cols = []
+        st = self.stops
         if d1 <= d0:
-            # degenerate domain: every stop colour can show
-            cols = [s[1] + (s[2],) for s in self.stops]
-        else:
-            w = d1 - d0
-            ulo, uhi = (lo - d0) / w, (hi - d0) / w
-            fr = [(s[0] - d0) / w for s in self.stops] + [0.0, 1.0]
-
-            def ramp_u(u):
-                return self._ramp(d0 + u * w)
-
+            cols = [s[1] + (s[2],) for s in st]
+            return [(min(c[i] for c in cols), max(c[i] for c in cols)) for i in range(4)]
+        w = d1 - d0
+        ulo, uhi = (lo - d0) / w, (hi - d0) / w
+        E = 1e-9
+        cols = []
+        for u in (ulo, uhi):
+            cols += self._ramp(d0 + self._wrap(u) * w)
+        first, last = st[0][1] + (st[0][2],), st[-1][1] + (st[-1][2],)
+        for off, rgb, al in st:
+            f = (off - d0) / w
+            f = max(0.0, min(1.0, f))
+            col = rgb + (al,)
             if self.extend == "pad":
-                a, b = max(0.0, min(1.0, ulo)), max(0.0, min(1.0, uhi))
-                cols += ramp_u(a) + ramp_u(b)
-                for f in fr:
-                    if a <= f <= b:
-                        cols += ramp_u(f)
+                inside = ulo - E <= f <= uhi + E
+            elif self.extend == "repeat":
+                inside = math.ceil(ulo - f - E) <= math.floor(uhi - f + E)
             else:
-                span = uhi - ulo
-                if span >= (1.0 if self.extend == "repeat" else 2.0):
-                    for f in fr:
-                        cols += ramp_u(max(0.0, min(1.0, f)))
-                else:
-                    cands = [ulo, uhi]
-                    k0, k1 = int(math.floor(ulo)) - 1, int(math.ceil(uhi)) + 1
-                    for k in range(k0, k1 + 1):
-                        for f in fr:
-                            cands.append(k + f)
-                            cands.append(k + 1 - f)
-                    for u in cands:
-                        if ulo <= u <= uhi:
-                            if self.extend == "repeat":
-                                fu = u - math.floor(u)
-                                cols += ramp_u(fu)
-                                if fu == 0.0 and not point:
-                                    cols += ramp_u(1.0)  # discontinuity: both ends meet here
-                                elif fu == 0.0 and point:
-                                    cols += ramp_u(1.0)
-                            else:
-                                m = u % 2.0
-                                cols += ramp_u(m if m <= 1 else 2 - m)
-        if point:
-            return cols[0] if cols else None
+                inside = (math.ceil((ulo - f - E) / 2.0) <= math.floor((uhi - f + E) / 2.0)) or (
+                    math.ceil((ulo + f - E) / 2.0) <= math.floor((uhi + f + E) / 2.0)
+                )
+            if inside:
+                cols.append(col)
+        # seams: in repeat mode both ends of the ramp meet at every integer u
+        if self.extend == "repeat" and math.ceil(ulo - E) <= math.floor(uhi + E):
+            cols += [first, last]
         return [(min(c[i] for c in cols), max(c[i] for c in cols)) for i in range(4)]
 
 
 class Leaf:
     """An outline (exact segments, tree space) filled with a paint. Flattening happens lazily in tree space."""
 
-    __slots__ = ("segs", "paint", "norm", "tag", "_contours", "_bounds")
+    __slots__ = ("segs", "paint", "norm", "tag", "qerr", "_contours", "_bounds")
 
-    def __init__(self, segs, paint, norm=1.0, tag=None):
+    def __init__(self, segs, paint, norm=1.0, tag=None, qerr=0.0):
         self.segs = segs  # contours of ("L"|"Q"|"C", points…) segments
         self.paint = paint
         self.norm = norm  # operator norm of the linear part of the chain that placed the outline
         self.tag = tag  # provenance (glyph name / element id) for messages and reuse accounting
+        self.qerr = qerr  # displacement allowed by the decimal rounding of the transform chain that placed it (SVG text)
         self._contours = None
         self._bounds = None
 
@@ -217,7 +206,7 @@ class Leaf:
         return self._bounds
 
     def replace_paint(self, paint):
-        lf = Leaf(self.segs, paint, self.norm, self.tag)
+        lf = Leaf(self.segs, paint, self.norm, self.tag, self.qerr)
         lf._contours, lf._bounds = self._contours, self._bounds
         return lf
 
@@ -271,7 +260,7 @@ def map_tree(nodes, m):
         if isinstance(n, Group):
             out.append(Group(n.alpha, map_tree(n.children, m)))
         else:
-            out.append(Leaf(map_segs(n.segs, m), map_paint(n.paint, m), n.norm, n.tag))
+            out.append(Leaf(map_segs(n.segs, m), map_paint(n.paint, m), n.norm, n.tag, n.qerr * anorm(m)))
     return out
 
 
@@ -291,28 +280,26 @@ def describe(nodes, depth=0):
 class Budget:
     """Tolerances derived from the encodings (DESIGN §3.2)."""
 
-    def __init__(self, target, upem=1024, reuse_tolerance=0.0, font_scale=1.0, cff=False, extra_tau=0.0):
+    def __init__(self, target, upem=1024, reuse_tolerance=0.0, font_scale=1.0, cff=False, extra_tau=0.0, symmetric=False):
         self.target = target  # "colr" | "otsvg" | "exact"
         self.upem = upem
-        self.reuse = max(0.0, reuse_tolerance)
+        # the tolerance is enforced per coordinate (|dx| <= t and |dy| <= t): sqrt(2) * t as a distance
+        self.reuse = max(0.0, reuse_tolerance) * 1.4143
         # The flag documents the tolerance in source units, the code applies it to font-unit paths: allow the larger.
         self.scale = max(1.0, font_scale)
         self.cff = cff
         self.extra_tau = extra_tau
+        self.symmetric = symmetric  # both trees come from compiled fonts: both carry field rounding
 
-    def tau(self, norm, leaf=None):
+    def tau(self, norm, leaf=None, impl=None):
         L = max(1.0, norm)
         big = max(1.0, self.upem / 4096.0)
         if self.target == "colr":
             cu2qu = 0.0 if self.cff else 0.001 * self.upem
             return (0.71 + cu2qu) * L + self.reuse * self.scale + 1.0 * big + self.extra_tau
         if self.target == "otsvg":
-            ext = 1.0
-            if leaf is not None:
-                bb = bbox(leaf.contours)
-                if bb:
-                    ext = max(abs(v) for v in bb) + 1.0
-            return 0.0005 * 2 * ext * 3 + self.reuse * self.scale + 0.5 + self.extra_tau
+            q = impl.qerr if impl is not None else 0.0
+            return 1.5 * q + self.reuse * self.scale + 0.5 + self.extra_tau
         return 1e-6 + self.extra_tau
 
     def delta(self, norm):
@@ -322,6 +309,12 @@ class Budget:
         if self.target == "otsvg":
             return 0.5 + 0.002 * self.upem
         return 1e-6
+
+    def delta_for(self, impl):
+        """Paint-position allowance for a leaf: the outline allowance of the same leaf (same rounded transforms)."""
+        if self.target == "otsvg":
+            return 1.5 * impl.qerr + 0.5
+        return self.delta(impl.norm)
 
     def eps_t(self, impl_grad, t, p=None):
         """Bound on the change of the gradient parameter caused by rounding the gradient's own geometry fields
@@ -341,12 +334,29 @@ class Budget:
             if p is not None:
                 q = aapply(g._inv or ainv(g.M), p)
                 D = math.hypot(q[0] - p0[0], q[1] - p0[1])
-            return 2 ** -13 + unit * (0.71 + dv * (D / ext + abs(t))) / ext
+            pe = self._gt_pos_err(g, abs(p0[0]) + abs(p0[1]) + D)
+            return 2 ** -13 + (unit * (0.71 + dv * (D / ext + abs(t))) + pe) / ext
         c0, r0, c1, r1 = g.geom
         ext = max((r1 - r0) - math.hypot(c1[0] - c0[0], c1[1] - c0[1]), 1e-9)
-        return 2 ** -13 + unit * (1.5 + 2.5 * abs(t)) / ext
+        return 2 ** -13 + (unit * (1.5 + 2.5 * abs(t)) + self._gt_pos_err(g, abs(c1[0]) + abs(c1[1]) + r1 * (1 + abs(t)))) / ext
 
-    alpha_tol = 2 ** -13 * 1.5
+    def _gt_pos_err(self, g, reach):
+        """Position error, in gradient space, caused by the 3-decimal rounding of a written gradientTransform whose
+        input coordinates have L1 size `reach` (a zero-translation matrix applied far from the origin is the bad case)."""
+        if self.target != "otsvg" or g.gt is None:
+            return 0.0
+        n = anorm(g.gt)
+        det = abs(g.gt[0] * g.gt[3] - g.gt[1] * g.gt[2])
+        smin = det / n if n else 0.0
+        if smin <= 0:
+            return float("inf")
+        return 0.0005 * 1.42 * (reach + 1.0) / smin
+
+    @property
+    def alpha_tol(self):
+        # COLR: F2Dot14 alpha (times one multiplication); SVG text: 3-decimal opacity or 8-bit hex alpha (truncated)
+        return 2 ** -13 * 1.5 if self.target == "colr" else (0.0045 if self.target == "otsvg" else 1e-9)
+
     eps_c = 2.0  # /255 for rgb
     eps_a = 2.0 / 255
 
@@ -368,15 +378,25 @@ def _probes(contours, n=7):
     return out
 
 
-def color_range(ref_grad, p, delta, eps_t_fn, impl_grad, t_impl):
+def color_range(ref_grad, p, delta, eps_t_fn, impl_grad, t_impl, symmetric=False):
     """Range of colours the reference paint takes around p, widened by what field rounding allows."""
-    ts = [ref_grad.t(p)]
+    pts = [p]
     for k in range(16):
-        ts.append(ref_grad.t((p[0] + delta * math.cos(2 * math.pi * k / 16), p[1] + delta * math.sin(2 * math.pi * k / 16))))
+        pts.append((p[0] + delta * math.cos(2 * math.pi * k / 16), p[1] + delta * math.sin(2 * math.pi * k / 16)))
+    for k in range(8):
+        pts.append((p[0] + 0.5 * delta * math.cos(2 * math.pi * (k + 0.5) / 8), p[1] + 0.5 * delta * math.sin(2 * math.pi * (k + 0.5) / 8)))
+    if ref_grad.kind == "R":
+        # the parameter of a radial gradient is a cone: its minimum over the disc is at the focus when that lies inside
+        f = aapply(ref_grad.M, ref_grad.geom[0])
+        if math.hypot(f[0] - p[0], f[1] - p[1]) <= delta:
+            pts.append(f)
+    ts = [ref_grad.t(q) for q in pts]
     if any(t is None for t in ts):
         return None
     lo, hi = min(ts), max(ts)
     w = (hi - lo) * 0.1 + eps_t_fn(impl_grad, t_impl, p)
+    if symmetric and ts[0] is not None:
+        w += eps_t_fn(ref_grad, ts[0], p)
     return ref_grad.color_range_t(lo - w, hi + w)
 
 
@@ -405,7 +425,7 @@ def compare(impl, ref, budget, path="/", res=None, stat=None):
             compare(a.children, b.children, budget, pth + "/", res, stat)
             continue
         stat["leaves"] += 1
-        tau = budget.tau(a.norm, b)
+        tau = budget.tau(a.norm, b, a)
         h = hausdorff(a.contours, b.contours, good=tau * 0.05)
         stat["margin"] = max(stat["margin"], min(h / tau, 50.0))
         if h > tau:
@@ -444,7 +464,13 @@ def compare(impl, ref, budget, path="/", res=None, stat=None):
         if not isinstance(pa, Grad):
             res.append(("PAINTKIND", pth, {"impl": repr(pa), "ref": repr(pb)}))
             continue
-        delta = budget.delta(a.norm)
+        if abs(pa.M[0] * pa.M[3] - pa.M[1] * pa.M[2]) < 1e-300:
+            # a non-invertible gradient matrix: renderers drop the paint
+            res.append(("GRADIENT-SINGULAR", pth, {"impl": repr(pa), "ref": repr(pb)}))
+            continue
+        if abs(pb.M[0] * pb.M[3] - pb.M[1] * pb.M[2]) < 1e-300:
+            continue
+        delta = budget.delta_for(a)
         worst = 0.0
         worst_info = None
         for p in _probes(b.contours):
@@ -453,7 +479,7 @@ def compare(impl, ref, budget, path="/", res=None, stat=None):
                 stat["skipped_probes"] += 1
                 continue
             ci = pa.color_at_t(ti)
-            rng = color_range(pb, p, delta, budget.eps_t, pa, ti)
+            rng = color_range(pb, p, delta, budget.eps_t, pa, ti, budget.symmetric)
             if rng is None or ci is None:
                 stat["skipped_probes"] += 1
                 continue
